@@ -436,6 +436,14 @@ pub fn families(tier: Tier, _variant: &str, mode: Mode) -> Vec<Family> {
             Mode::RoundTrip => check_roundtrip(ctx, d.as_bytes()),
         }
     }));
+    // corpus documents of the repository (long, realistic: beyond the length of every sweep)
+    {
+        let docs: Vec<(String, Vec<u8>)> = gen::corpus();
+        v.push(Family::of_vec("corpus-files", docs, move |(_, d), ctx| match mode {
+            Mode::Tree => check_tree(ctx, d, gen::FRAMINGS_2),
+            Mode::RoundTrip => check_roundtrip(ctx, d),
+        }));
+    }
     // every accepted document of the C02 spaces
     {
         let k = gen::T16.len() as u64;
